@@ -1,4 +1,5 @@
-"""Which units decide which property (DESIGN section 7).  A unit spec is (kind, module, attribute, opts).
+"""Which units decide which property (DESIGN section 7).  Every property whose operators keep state through the store also discharges the
+store contract (STORE) in the same check: a caller is verified against the callee's contract only, so the callee must be verified there too.  A unit spec is (kind, module, attribute, opts).
 A property's check discharges every contract in its dependency closure: the handlers it is stated about, the helper closures they
 are built from, and the store methods they call (each caller is verified against the callee's contract only)."""
 
@@ -51,20 +52,20 @@ A_COMMON = [
     'glue lemmas over the per-handler contracts: L1 (projection / confinement, lemmas/KT.lean), L2 (composition) + L5 (folds) (lemmas/L2.lean) and L4 (framing: chunking independence, uniqueness, round trip; lemmas/L4.lean) and L3a (a KT handler maps a well-formed mux trace to a well-formed one with the same live keys; lemmas/L3.lean) and L3b (confinement composes: a keyed machine -- plain transducer, key spawner or demultiplexer -- is local to every key set, and compositions of local stream functions are local, hence spawner ; inner pipeline ; demux nested to any depth confines each outer key; lemmas/L3b.lean) are checked by Lean 4; that each real handler *is* such a keyed machine (outputs of an event of key k carry keys projecting on k, only slot k is touched) is what the per-handler `emits` / `frame` obligations discharge',
 ]
 
-define('C01', 'multiplexing is transparent', SCALAR + MISC_OPS + PLUMB + TEE + [op('spawners', 'group_by_mux')] + HELP('batch', 'distinct_until_changed', 'math', 'formal', 'misc')
+define('C01', 'multiplexing is transparent', STORE + SCALAR + MISC_OPS + PLUMB + TEE + [op('spawners', 'group_by_mux')] + HELP('batch', 'distinct_until_changed', 'math', 'formal', 'misc')
        + PLAIN('scan', 'flat_map', 'assert_1', 'dispatch') + LEAN('KT', 'L2') + [bounded('mux', 'check_c01')],
        A_COMMON + ['RxPY plain operators (ops.map/filter/first/last/take/to_list/do_action) are assumed to have their documented list semantics'], 'DESIGN 7/C01',
        level='other', level_why='partial: every per-operator refinement obligation (mux handler = keyed transducer of the plain operator) is discharged, but the statement also compares *when '
        'upstream work stops*: take / first do not end a multiplexed key, so items behind the cut are still evaluated (known finding KF5); the property is not claimed as proved')
 define('C02', 'state confinement', STORE + SCALAR + SEQ + [op('seqops', 'assert_1_mux')] + SPAWN + TEE + HELP('batch', 'distinct_until_changed', 'formal') + LEAN('KT', 'L2', 'L3b')
        + [bounded('mux', 'check_c02')], A_COMMON, 'DESIGN 7/C02')
-define('C03', 'mux event protocol', SCALAR + SEQ + MISC_OPS + PLUMB + ERRORS + SPAWN + TEE + LEAN('L3', 'L3b') + [bounded('mux', 'check_c03')], A_COMMON, 'DESIGN 7/C03',
+define('C03', 'mux event protocol', STORE + SCALAR + SEQ + MISC_OPS + PLUMB + ERRORS + SPAWN + TEE + LEAN('L3', 'L3b') + [bounded('mux', 'check_c03')], A_COMMON, 'DESIGN 7/C03',
        level='other', level_why="partial: every per-handler obligation is discharged, under assumption A5' (no mux error crosses a key-spawning operator); "
        'with such an error the protocol is broken at the inner boundaries of roll / time_split (known finding KF1), so the property is not claimed as proved')
 define('C04', 'group_by partitions', [op('spawners', 'group_by_mux'), op('seqops', 'demux_mux_observable')] + STORE + [bounded('mux', 'check_c04')], A_COMMON, 'DESIGN 7/C04')
 define('C05', 'roll windows', [op('roll', 'roll_mux'), op('roll', 'roll_count'), op('seqops', 'demux_mux_observable')] + STORE + [bounded('mux', 'check_c05')], A_COMMON, 'DESIGN 7/C05')
-define('C06', 'split', [op('spawners', 'split_mux'), op('seqops', 'demux_mux_observable')] + [bounded('mux', 'check_c06')], A_COMMON, 'DESIGN 7/C06')
-define('C07', 'time_split', [op('spawners', 'time_split_mux'), op('seqops', 'demux_mux_observable')] + [bounded('mux', 'check_c07')],
+define('C06', 'split', [op('spawners', 'split_mux'), op('seqops', 'demux_mux_observable')] + STORE + [bounded('mux', 'check_c06')], A_COMMON, 'DESIGN 7/C06')
+define('C07', 'time_split', [op('spawners', 'time_split_mux'), op('seqops', 'demux_mux_observable')] + STORE + [bounded('mux', 'check_c07')],
        A_COMMON + ['datetime / timedelta arithmetic is an ordered group (modelled as reals); timeouts are positive'], 'DESIGN 7/C07')
 define('C08', 'tee_map join', TEE + [bounded('mux', 'check_c08')], A_COMMON + ['number of branches: n = 2, 3 (bounded parameter); rx publish/connect assumed'], 'DESIGN 7/C08',
        level='other', level_why='partial: the join handlers and the wiring are discharged for every event case (n = 2, 3 branches); on plain cold sources a branch of RxPY operators that subscribe '
@@ -75,14 +76,14 @@ define('C09', 'scan/reduce algebra', [op('scalar', 'scan_mux')] + LEAN('L2') + P
        'leaves the signed 64-bit range fails on a multiplexed source only (known finding KF4), so the property is not claimed as proved')
 define('C10', 'per-key sequence operators', [op('scalar', n) for n in ('first_mux', 'take_mux', 'last_mux')] + SEQ + HELP('batch', 'distinct_until_changed') + PLAIN('to_deque')
        + STORE + [bounded('mux', 'check_c10')], A_COMMON + ['sorted() is a stable sort (trusted)'], 'DESIGN 7/C10')
-define('C11', 'streaming promptness', SCALAR + SEQ + PLUMB + SPAWN + TEE + HELP('batch') + [bounded('mux', 'check_c11')],
+define('C11', 'streaming promptness', STORE + SCALAR + SEQ + PLUMB + SPAWN + TEE + HELP('batch') + [bounded('mux', 'check_c11')],
        A_COMMON + ['promptness = the per-call emission postconditions: every ensures names the call in which an output appears; no handler uses a scheduler (a scheduler use leaves the verified subset)'],
        'DESIGN 7/C11')
 define('C12', 'math aggregates', HELP('math', 'formal') + [op('scalar', 'scan_mux')] + PLAIN('scan') + [bounded('mux', 'check_c12')],
        A_COMMON + ['A2f: the accumulator identities are proved over the reals; the IEEE-754 error bound of the statement is only checked on the stated bounded scope (exact rational oracle)'], 'DESIGN 7/C12',
        level='other', level_why='partial: the accumulator identities are discharged deductively over the reals, but the relative-error bound the property is about (IEEE-754 rounding of an '
        'unbounded fold) is not decided by any contract in reach of z3/cvc5; it is checked against an exact rational oracle on a stated bounded scope only')
-define('C13', 'item-level errors', [op('scalar', n) for n in ('map_mux', 'filter_mux', 'scan_mux')] + ERRORS + [op('seqops', 'demux_observable'), op('seqops', 'demux_mux_observable')]
+define('C13', 'item-level errors', STORE + [op('scalar', n) for n in ('map_mux', 'filter_mux', 'scan_mux')] + ERRORS + [op('seqops', 'demux_observable'), op('seqops', 'demux_mux_observable')]
        + HELP('misc') + [bounded('mux', 'check_c13')], A_COMMON, 'DESIGN 7/C13')
 define('C14', 'memory store', STORE + [bounded('mux', 'check_c14')], A_COMMON[:3] + A_COMMON[6:9], 'DESIGN 7/C14')
 
@@ -99,7 +100,7 @@ A_LIB = ['the third-party libraries are opaque: their streaming laws (output = c
          'libraries by the bounded tier only',
          'A1 synchronous single-threaded delivery', 'termination not verified']
 define('C16', 'compression round trip', W('compression') + [bounded('io', 'check_c16')], A_LIB, 'DESIGN 7/C16')
-define('C17', 'incremental codec', W('codec') + [bounded('io', 'check_c17')], A_LIB, 'DESIGN 7/C17')
+define('C17', 'incremental codec', W('codec', 'json') + [bounded('io', 'check_c17')], A_LIB, 'DESIGN 7/C17')
 define('C18', 'csv round trip', W('csv', 'io') + [fn('framing', 'unit_framing', which='line')] + LEAN('L4') + [bounded('io', 'check_c18')],
        A_LIB + ['A2f: float(text) is treated as the exact real value of the literal', 'the string escaping / quoted-field merging of csv.dump / create_line_parser is NOT under contract '
                 '(replace chains are outside solver reach): bounded tier only'], 'DESIGN 7/C18',
